@@ -203,6 +203,11 @@ class StepRig:
         finally:
             del self.ex._run_once
             shim.S.active_threads.discard(ident)
+            # _run_forever() calls loop.stop() in its finally, so the loop leaves before run_until_complete's own done
+            # callback ran; that stale callback would stop the NEXT run_until_complete (step()) before its future completes.
+            # Drain the ready queue once so stepping can continue after a _run_forever drive.
+            self.loop.call_soon(self.loop.stop)
+            self.loop.run_forever()
 
     async def _forever_wrapper(self) -> None:
         # _run_forever() ends with loop.stop() in its finally; harmless under run_until_complete
